@@ -35,7 +35,7 @@ structure Trace (cfg : Cfg) (ctx : Ctx) (r : Request) (hop : Hop) (out : OutMsg)
   out : out = writeRequest hop auth
     { fixup ctx g0 with header := finish cfg (upgradeType g0.header) h4 }
   hop : hop = .direct (fixup ctx g0).urlHost ∨
-    ∃ hp, hop = .proxy hp ∧ (fixup ctx g0).scheme = bs "http"
+    (hop.speaksProxy = true ∧ (fixup ctx g0).scheme = bs "http") ∨ ∃ hp, hop = .socks hp
 
 theorem processRequest_forwarded {cfg : Cfg} {ctx : Ctx} {r : Request} {hop : Hop} {out : OutMsg}
     (h : processRequest cfg ctx r = .forwarded hop out) :
@@ -55,16 +55,27 @@ theorem processRequest_forwarded {cfg : Cfg} {ctx : Ctx} {r : Request} {hop : Ho
   · cases h
   rename_i h4 hv
   extract_lets h5 h6 h7 h8 gOut at h
-  split at h
-  · cases h
-    exact ⟨g0, h3, h4, none, hr, hs, hb, hv, rfl, Or.inl rfl⟩
-  · split at h
+  have viaProxy : ∀ {hp' : Hop} {a : Option Bytes}, hp'.speaksProxy = true →
+      (if (scheme == bs "http") = true then Outcome.forwarded hp' (writeRequest hp' a gOut)
+        else .forwarded (.direct urlHost) (writeRequest (.direct urlHost) none gOut)) =
+        .forwarded hop out → ∃ g0 h3 h4 auth, Trace cfg ctx r hop out g0 h3 h4 auth := by
+    intro hp' a hsp h
+    split at h
     · rename_i hsch
       cases h
       exact ⟨g0, h3, h4, _, hr, hs, hb, hv, rfl,
-        Or.inr ⟨_, rfl, (show scheme = bs "http" from by simpa using hsch)⟩⟩
+        Or.inr (Or.inl ⟨hsp, (show scheme = bs "http" from by simpa using hsch)⟩)⟩
     · cases h
       exact ⟨g0, h3, h4, none, hr, hs, hb, hv, rfl, Or.inl rfl⟩
+  split at h
+  · cases h
+    exact ⟨g0, h3, h4, none, hr, hs, hb, hv, rfl, Or.inl rfl⟩
+  · exact viaProxy rfl h
+  · exact viaProxy rfl h
+  · cases h
+    exact ⟨g0, h3, h4, none, hr, hs, hb, hv, rfl, Or.inr (Or.inr ⟨_, rfl⟩)⟩
+  · exact viaProxy rfl h
+  · cases h
 
 /-- the converse: a request that passes every stage is forwarded -/
 theorem processRequest_of_stages {cfg : Cfg} {ctx : Ctx} {r : Request} {g0 : GoReq} {h3 h4 : HMap}
@@ -72,7 +83,8 @@ theorem processRequest_of_stages {cfg : Cfg} {ctx : Ctx} {r : Request} {g0 : GoR
     (hb : badFraming
       (forwarded ctx { fixup ctx g0 with header := removeHopByHop g0.header }) = some h3)
     (hv : viaStep cfg g0.minor h3 = some h4) :
-    ∃ hop out, processRequest cfg ctx r = .forwarded hop out := by
+    (cfg.upstream ≠ .failed ∧ ∃ hop out, processRequest cfg ctx r = .forwarded hop out) ∨
+      (cfg.upstream = .failed ∧ processRequest cfg ctx r = .routeError) := by
   unfold processRequest
   split
   · rename_i e he; rw [hr] at he; cases he
@@ -98,10 +110,24 @@ theorem processRequest_of_stages {cfg : Cfg} {ctx : Ctx} {r : Request} {g0 : GoR
     rw [this] at hn; cases hn
   extract_lets h5 h6 h7 h8 gOut
   split
-  · exact ⟨_, _, rfl⟩
-  · split
+  · rename_i hu; exact Or.inl ⟨by rw [hu]; simp, _, _, rfl⟩
+  · rename_i hu
+    refine Or.inl ⟨by rw [hu]; simp, ?_⟩
+    split
     · exact ⟨_, _, rfl⟩
     · exact ⟨_, _, rfl⟩
+  · rename_i hu
+    refine Or.inl ⟨by rw [hu]; simp, ?_⟩
+    split
+    · exact ⟨_, _, rfl⟩
+    · exact ⟨_, _, rfl⟩
+  · rename_i hu; exact Or.inl ⟨by rw [hu]; simp, _, _, rfl⟩
+  · rename_i hu
+    refine Or.inl ⟨by rw [hu]; simp, ?_⟩
+    split
+    · exact ⟨_, _, rfl⟩
+    · exact ⟨_, _, rfl⟩
+  · rename_i hu; exact Or.inr ⟨hu, rfl⟩
 
 /-! ## §2 names and keys -/
 
@@ -492,16 +518,16 @@ theorem Trace.outValues_other (t : Trace cfg ctx r hop out g0 h3 h4 auth) (hr : 
 /-- Via as the writer gets it -/
 theorem Trace.hget8_via (t : Trace cfg ctx r hop out g0 h3 h4 auth) (hr : cfg.rules = []) :
     hget (finish cfg (upgradeType g0.header) h4) (bs "Via") =
-      [viaValue cfg r.minor (survivingFirst r (bs "via"))] := by
+      [viaValue cfg r.minor (survivingChain r (bs "via"))] := by
   rw [finish_eq, hr]
   show hget (finishTail cfg (upgradeType g0.header) h4) (bs "Via") = _
   rw [hget_congr ((finishTail_agree cfg _ h4).get t.inv4 (k := bs "Via") (by decide +kernel)),
     viaStep_some t.via, hget_goSet_self' _ _ ck_Via, t.spec.minor]
   have h3' := t.hget3_name (n := bs "via") (by decide +kernel) (by decide +kernel)
     (by decide +kernel) (by decide +kernel) (by decide +kernel) (by decide +kernel)
-  have : goGet h3 (bs "Via") = survivingFirst r (bs "via") := by
-    unfold goGet survivingFirst
-    rw [show canonicalKey (bs "Via") = canonicalKey (bs "via") from by decide +kernel, h3']
+  have : viaChainOf h3 = survivingChain r (bs "via") := by
+    unfold viaChainOf survivingChain
+    rw [← h3', show canonicalKey (bs "via") = bs "Via" from by decide +kernel]
   rw [this]
 
 /-- a key the forwarded modifier owns, as the writer gets it -/
@@ -515,12 +541,16 @@ theorem Trace.hget8_fwd (t : Trace cfg ctx r hop out g0 h3 h4 auth) (hr : cfg.ru
 /-- X-Forwarded-For as the writer gets it -/
 theorem Trace.hget8_xff (t : Trace cfg ctx r hop out g0 h3 h4 auth) (hr : cfg.rules = []) :
     hget (finish cfg (upgradeType g0.header) h4) (canonicalKey (bs "X-Forwarded-For")) =
-      [if (survivingFirst r (bs "x-forwarded-for")).isEmpty then ctx.clientIP
-       else survivingFirst r (bs "x-forwarded-for") ++ bs ", " ++ ctx.clientIP] := by
+      [if (survivingChain r (bs "x-forwarded-for")).isEmpty then ctx.clientIP
+       else survivingChain r (bs "x-forwarded-for") ++ bs ", " ++ ctx.clientIP] := by
+  have hB := t.hgetB (n := bs "x-forwarded-for") (by decide +kernel) (by decide +kernel)
+    (by decide +kernel) (by decide +kernel)
+  rw [show canonicalKey (bs "x-forwarded-for") = bs "X-Forwarded-For" from by decide +kernel] at hB
+  have : xffChainOf (removeHopByHop g0.header) = survivingChain r (bs "x-forwarded-for") := by
+    unfold xffChainOf survivingChain
+    rw [hB]
   rw [t.hget8_fwd hr (by decide +kernel) (by decide +kernel) (by decide +kernel),
-    hget_forwarded_xff, header_mk,
-    t.goGetB (bs "X-Forwarded-For") (n := bs "x-forwarded-for") (by decide +kernel)
-    (by decide +kernel) (by decide +kernel) (by decide +kernel) (by decide +kernel)]
+    hget_forwarded_xff, header_mk, this]
 
 theorem Trace.hget8_proto (t : Trace cfg ctx r hop out g0 h3 h4 auth) (hr : cfg.rules = []) :
     hget (finish cfg (upgradeType g0.header) h4) (canonicalKey (bs "X-Forwarded-Proto")) =
